@@ -321,6 +321,34 @@ def run_legs_noninteger(ctx, sid, sym, ms, B):
             ref = yastn.Leg(sym, **base)
         except Exception:  # noqa: BLE001   (not a valid base leg: nothing to perturb)
             continue
+        # the same acceptance rule when the fusion record is handed over explicitly (hf=...): out-of-range / repeated charges rejected
+        if nsym > 0 and rng.random() < 0.35:
+            bad_t = [list(c) for c in t]
+            kind_hf = rng.choice(["range", "repeat", "valid"])
+            if kind_hf == "range":
+                cand = [(i, j) for i in range(ns) for j in range(nsym) if ms[j] > 0]
+                if not cand:
+                    kind_hf = "repeat"
+                else:
+                    i, j = rng.choice(cand)
+                    bad_t[i][j] = rng.choice((ms[j], ms[j] + 1, -1, -2))
+            if kind_hf == "repeat":
+                bad_t.append(list(bad_t[rng.randrange(ns)]))
+            Dh = D + ([rng.randint(1, 3)] if kind_hf == "repeat" else [])
+            try:
+                lg = yastn.Leg(sym, s=s0, t=[tuple(c) for c in bad_t], D=tuple(Dh), hf=ref.hf)
+                errh = None
+            except Exception as e:  # noqa: BLE001
+                lg, errh = None, f"{type(e).__name__}: {e}"
+            caseh = {"sym": sid, "stratum": f"explicit-hf:{kind_hf}", "s": s0, "t": bad_t, "D": Dh}
+            ctx.case(caseh)
+            ctx.count(f"leg-explicit-hf:{kind_hf}:{'accepted' if lg is not None else 'rejected'}")
+            if (kind_hf == "valid") != (lg is not None):
+                ctx.fail("oracle", f"c19:leg-accept:{sid}", f"Leg({sid}, s={s0}, t={bad_t}, D={Dh}, hf=<record of an elementary leg>) "
+                         f"{'accepted as ' + str(lg) if lg is not None else 'rejected (' + str(errh) + ')'} but should be {'accepted' if kind_hf == 'valid' else 'rejected'} "
+                         f"(charges {'outside the natural range' if kind_hf == 'range' else 'repeated' if kind_hf == 'repeat' else 'valid'})", case=caseh, concrete=True)
+            elif lg is not None and not (lg.t == ref.t and lg.D == ref.D and lg.s == ref.s):
+                ctx.fail("oracle", f"c19:leg-sorted:{sid}", f"Leg built with an explicit hf differs from the Leg built without: {lg} vs {ref}", case=caseh, concrete=True)
         what = rng.choice(["s-frac", "s-float", "D-frac", "D-float"] + (["t-frac", "t-frac", "t-float"] if nsym > 0 else []))
         args = dict(base)
         frac = rng.choice((0.5, 0.2, 0.9, -0.5))
